@@ -87,6 +87,21 @@ impl Prop for C14Prop {
         let (directed, multi, self_loops) = gen::kind_from(idx as usize % 8);
         let specs = Specs { directed, multi, self_loops, dedupe: *rng.pick(&[Dedupe::Error, Dedupe::KeepFirst, Dedupe::KeepLast]), missing: *rng.pick(&[Missing::Create, Missing::Error]), slf: *rng.pick(&[Slf::Error, Slf::Drop]) };
         let mut case = Case::new("C14", seed, specs);
+        {
+            let mut hr = Rng::new(seed, "config.huge");
+            if hr.chance(1, 2000) {
+                // thousands of elements: a document of several hundred KiB
+                let regime = *hr.pick(&[gen::WeightRegime::AllNan, gen::WeightRegime::Nasty, gen::WeightRegime::Mixed, gen::WeightRegime::Extreme, gen::WeightRegime::NearEqual]);
+                let mut wr = Rng::new(seed, "workload.huge");
+                let (specs, ops) = gen::gen_dense_graph(&mut wr, directed, multi, self_loops, regime);
+                let mut case = Case::new("C14", seed, specs);
+                case.ops = ops;
+                case.envs = gen::envs(seed, 2);
+                case.params.put("weights", J::s(&format!("{:?}", regime)));
+                case.params.put("source", J::s("dense graph with thousands of edges"));
+                return case;
+            }
+        }
         let n = rng.range(0, 7);
         let mut names: Vec<String> = vec![];
         if rng.chance(1, 400) {
@@ -237,7 +252,7 @@ impl Prop for C14Prop {
         }
     }
     fn rule(&self) -> String {
-        "graphs of all 8 kinds (<= 7 nodes, <= 10 edges, self-loops, parallel edges) with names from a Unicode generator (XML specials, entity-like text, ]]>, spaces incl. leading/trailing/double, combining marks, astral plane, CJK, RTL, NBSP, U+2028, BOM, empty string, 400-char names; no control characters) and weights from a bit-pattern generator (+-0, subnormals, MIN_POSITIVE, MAX, +-inf, 17-digit values, integers above 2^53, random non-NaN bit patterns) or unweighted / mixed; write_graphml_string -> read_graphml_string with the same specs under 3 (quick) / 5 (thorough) hash keyings (the writer emits edges in hash order): same names in order, directedness, edge multiset with bit-identical weights, relative order of parallel edges; write_graphml_file + read_graphml_file (real files in /verif/target/scratch) give the same document and graph. distinct_nontrivial = distinct graphs with edges and a special name or a weighted edge".into()
+        "graphs of all 8 kinds (<= 7 nodes, <= 10 edges, self-loops, parallel edges) with names from a Unicode generator (XML specials, entity-like text, ]]>, spaces incl. leading/trailing/double, combining marks, astral plane, CJK, RTL, NBSP, U+2028, BOM, empty string, 400-char names; no control characters) and weights from a bit-pattern generator (+-0, subnormals, MIN_POSITIVE, MAX, +-inf, 17-digit values, integers above 2^53, random non-NaN bit patterns) or unweighted / mixed; write_graphml_string -> read_graphml_string with the same specs under 3 (quick) / 5 (thorough) hash keyings (the writer emits edges in hash order): same names in order, directedness, edge multiset with bit-identical weights, relative order of parallel edges; write_graphml_file + read_graphml_file (real files in /verif/target/scratch) give the same document and graph. distinct_nontrivial = distinct graphs with edges and a special name or a weighted edge; one case in 2000 is a dense graph (1-3 blocks, 60-300 nodes) with 2 100 - 12 500 stored edges under a pool of 2-16 workers (strategy thresholds)".into()
     }
     fn assumptions(&self) -> Vec<String> {
         vec!["the file system is real and fault-free (no property asks for I/O-error behaviour)".into(), "control characters and the XML-forbidden code points U+FFFE/U+FFFF are excluded, as the property says".into()]
